@@ -770,15 +770,15 @@ class MP4Tags(DictProxy, Tags):
         while pos < atom.length - 8:
             length, name, imageformat = struct.unpack(">I4sI",
                                                       data[pos:pos + 12])
+            if length < 1:
+                raise MP4MetadataError(
+                    "atom %r has a length of zero" % atom.name)
             if name != b"data":
                 if name == b"name":
                     pos += length
                     continue
                 raise MP4MetadataError(
                     "unexpected atom %r inside 'covr'" % name)
-            if length < 1:
-                raise MP4MetadataError(
-                    "atom %r has a length of zero" % atom.name)
             if imageformat not in (MP4Cover.FORMAT_JPEG, MP4Cover.FORMAT_PNG):
                 # Sometimes AtomDataType.IMPLICIT or simply wrong.
                 # In all cases it was jpeg, so default to it
